@@ -863,6 +863,10 @@ def routing_scenarios(rng, ctx, n):
             if rng.random() < 0.4 and policy != 0:
                 # second incarnation with partially different ranges: pre-owned slots
                 ops += [inf(p), dele(p), inf(p), {"op": "event", "n": 0}]
+                if rng.random() < 0.5:
+                    # a new process, or a reload of the unchanged configuration, rebuilds the tables from the store: every stored IP
+                    # must come back with the attributes of ITS pool (pools may share a pod subnet)
+                    ops.append(rng.choice([{"op": "restart"}, {"op": "reload", "conf": conf_text(pools)}]))
                 p2 = dict(p, Uid=p["Uid"] + "x")
                 if ranges and rng.random() < 0.5 and pool:
                     a = pool.pop()
@@ -907,6 +911,26 @@ def node_in_subnets(node_ip, subnets):
     return False
 
 
+def conf_pools(conf):
+    """the pools of a configuration text as (ranges, masklen, gateway, vlan, node subnets); None if it is not a plain list of
+    pool objects (then only the implementation's own attribution is checked)"""
+    try:
+        out = []
+        for p in json.loads(conf):
+            out.append(([parse_range_str(r) for r in p["ips"]], int(p["subnet"].split("/")[1]), ipamgen.s2ip(p["gateway"]),
+                        int(p.get("vlan", 0)), list(p["nodeSubnets"])))
+        return out
+    except Exception:
+        return None
+
+
+def conf_pool_of(pools, x):
+    for p in pools or []:
+        if any(a <= x <= b for a, b in p[0]):
+            return p
+    return None
+
+
 def mon_c06(h, o, nwf, keys):
     """bind right after filter on an approved node: succeeds or waits for the deletion event (filter_then_bind); every IP written
     is routable from the node (bind_routable) and carries its pool's mask / gateway / vlan (bind_info_configured)"""
@@ -915,11 +939,14 @@ def mon_c06(h, o, nwf, keys):
     steps = (o.get("steps") or [])[:nwf]
     prev = None
     last_filter = {}          # (ns,name) -> (step index, approved nodes)
+    cpools = conf_pools(h["conf"])       # the configuration in force, as the administrator wrote it
     for si, (op, st) in enumerate(zip(h["ops"], steps)):
         d = st.get("dump")
         if d is None:
             break
         k = op["op"]
+        if k == "reload" and st.get("res") == "ok":
+            cpools = conf_pools(op["conf"])
         if k == "filter" and st.get("res") == "ok":
             last_filter[(op["ns"], op["name"])] = (si, st.get("nodes") or [])
         elif k == "bind" and prev is not None and st.get("res") != "skipped":
@@ -944,10 +971,17 @@ def mon_c06(h, o, nwf, keys):
                     pools = {e[0]: e[6] for e in d["alloc"]}
                     nip = h["nodes"].get(node)
                     routable = nip is not None and all(x in pools and node_in_subnets(nip, pools[x][3]) for x in st.get("ips") or [])
+                    if cpools is not None:
+                        # ... and by the configuration itself: the pool whose ranges contain the IP lists the node's subnet
+                        routable = routable and all(conf_pool_of(cpools, x) is not None and node_in_subnets(nip, conf_pool_of(cpools, x)[4])
+                                                    for x in st.get("ips") or [])
                     out.append((lit(routable), si, "bind_routable", tags))
             if st.get("res") == "ok":
                 pools = {e[0]: e[6] for e in d["alloc"]}
                 ok = all(len(inf) == 4 and inf[0] in pools and [inf[1], inf[2], inf[3]] == list(pools[inf[0]][:3]) for inf in st.get("infos") or [])
+                if cpools is not None:
+                    ok = ok and all(conf_pool_of(cpools, inf[0]) is not None and [inf[1], inf[2], inf[3]] == list(conf_pool_of(cpools, inf[0])[1:4])
+                                    for inf in st.get("infos") or [])
                 out.append((lit(ok), si, "bind_info_configured", []))
             last_filter.pop((op["ns"], op["name"]), None)
         elif k != "informer":
